@@ -248,6 +248,7 @@ impl Prop for HelloPart {
                         base11: b11,
                         url,
                         schemes: schemes & ((1 << SCHEMES.len()) - 1),
+                        order: (std >> 10) as u8 | ((schemes >> 5) << 6),
                     },
                     unknown_caps,
                     duplicate_first_cap: false,
